@@ -8,7 +8,9 @@ from mc.engine import Viol
 
 PROP = "C16"
 ZONES = ["UTC", "Etc/GMT-5", "Etc/GMT+8", "Asia/Kolkata", "Europe/Berlin", "America/New_York", "Australia/Sydney", "Pacific/Chatham",
-         "Australia/Lord_Howe", "Europe/Dublin", "Africa/Casablanca", "America/St_Johns", "America/Sao_Paulo"]
+         "Australia/Lord_Howe", "Europe/Dublin", "Africa/Casablanca", "America/St_Johns", "America/Sao_Paulo",
+         # zones whose offset had a seconds part within living memory (Monrovia -0:44:30 until 1972, Amsterdam +0:19:32 until 1937)
+         "Africa/Monrovia", "Europe/Amsterdam"]
 YEAR = 2021
 LINKED_SIZE = 4321
 ISO = re.compile(r"^\d{4}-\d\d-\d\dT\d\d:\d\d:\d\d(\.\d{1,6})?([+-]\d\d:\d\d|Z)$")
@@ -107,6 +109,9 @@ def eval_case(ctx, case):
             V("date-format", f"{what} {text!r} is not a well-formed ISO-8601 date-time with offset", what=what)
             return
         want_off = datetime.datetime.fromtimestamp(instant, z).utcoffset()
+        if want_off.seconds % 60:
+            # an offset with a seconds part (local mean time) has no ISO-8601 / xs:dateTime form: the nearest whole minute stands for it
+            want_off = datetime.timedelta(minutes=round(want_off.total_seconds() / 60))
         err = abs(d.timestamp() - instant)
         import math
         # at the resolution of whole seconds the correct value is the second that contains the instant (or, for a writer that
